@@ -46,7 +46,10 @@ def boundary_doubles():
 def run(tier):
     ck = Check("C19", tier)
     quick = tier == "quick"
-    common.build(["hook"])
+    # the unhooked builds run the same programs too: there the collector really frees and the allocator really reuses
+    # addresses, across the interpreters that one runner process creates one after another (a conversion cache keyed
+    # by a string's address, say, is invisible while nothing is ever freed)
+    common.build(["hook", "dev", "rel"])
     common.replay_witnesses(ck, ["hook"])
     rng = ck.rng
     plist = []
@@ -160,7 +163,7 @@ def run(tier):
             ck.count("lexing_cases")
             ck.note_nontrivial(p["name"])
 
-    checked, discarded = modelcheck.check_programs(ck, plist, on_result=seen, opts={"gc": "never"})
+    checked, discarded = modelcheck.check_programs(ck, plist, on_result=seen, opts={"gc": "never"}, extra_cfgs=("dev", "rel"))
     ck.evaluations = ck.coverage.get("doubles_checked", 0) + ck.coverage.get("literals_checked", 0) + ck.coverage.get("lexing_cases", 0)
     ck.coverage["programs_checked"] = checked
     ck.coverage["programs_discarded_by_model"] = discarded
